@@ -6,7 +6,7 @@
 (***************************************************************************)
 EXTENDS Project, TypeLang, Json
 
-CONSTANT Mode,   \* "disc" | "graphs3" | "edges" | "layouts" | "emits"
+CONSTANT Mode,   \* "disc" | "graphs3" | "edges" | "layouts" | "derives" | "emits"
          EmitDepth \* 2 | 3 : deepest frame path of the emit cases
 VARIABLE c
 
@@ -65,6 +65,17 @@ LayoutCases ==
        place |-> pl]
       : sh \in LayoutShapes, rsite \in {"param", "event"}, pl \in [N3 \cup {"cmd"} -> Slots] }
 
+\* ---- C07: derive spellings.  A chain A -> B -> C (and the fan A -> {B, C}) where every type's derive list is
+\* spelled in every way: `serde` follows from the spelling (Project!DerivesSerde).
+DeriveKinds == SerdeDerives \cup NonSerdeDerives
+DeriveCases ==
+    { [kind |-> "graph", nodes |-> <<"A", "B", "C">>,
+       edges |-> [n \in N3 |-> {[ctx |-> "direct", to |-> m, ty |-> Node(m)] : m \in sh[n]}],
+       serde |-> [n \in N3 |-> DerivesSerde(dk[n])],
+       derive |-> dk,
+       roots |-> {[site |-> "param", ctx |-> "direct", to |-> "A", ty |-> Node("A")]}]
+      : sh \in {Chain, Fan}, dk \in [N3 -> DeriveKinds] }
+
 \* ---- C12: emit placements.  The call sits in a *tail* form inside a path of enclosing *frames* (outermost
 \* first) within one top-level function body: "at any block nesting" is the free composition of frames.
 Tails == {"stmt", "let_init", "match_arm_expr", "try_op", "await", "unwrap_recv", "ok_recv", "tail_expr",
@@ -89,6 +100,7 @@ Space == CASE Mode = "disc"    -> DiscCases
            [] Mode = "graphs3" -> Graphs3
            [] Mode = "edges"   -> EdgeCases
            [] Mode = "layouts" -> LayoutCases
+           [] Mode = "derives" -> DeriveCases
            [] Mode = "emits"   -> EmitCases
 Init == c \in Space
 Next == UNCHANGED c
@@ -98,7 +110,8 @@ Out(x) == IF x.kind = "graph"
           THEN [kind |-> "graph", nodes |-> x.nodes,
                 edges |-> [n \in DOMAIN x.edges |-> SetSeq(x.edges[n])],
                 serde |-> x.serde, roots |-> SetSeq(x.roots),
-                place |-> IF "place" \in DOMAIN x THEN x.place ELSE [n \in {"cmd"} |-> 1]]
+                place |-> IF "place" \in DOMAIN x THEN x.place ELSE [n \in {"cmd"} |-> 1],
+                derive |-> IF "derive" \in DOMAIN x THEN x.derive ELSE [n \in {"-"} |-> "-"]]
           ELSE x
 Emit == PrintT(<<"REPLAY", ToJson(Out(c))>>)
 =============================================================================
